@@ -393,6 +393,47 @@ def run_crash(limit):
         shutil.rmtree(d, ignore_errors=True)
 
 
+SHARED_LISTS = ["pool", "reversed", "rotated", "first5", "specials-first"]
+
+
+def shared_list(name):
+    pool = list(G["cache_pool"])
+    if name == "reversed":
+        return pool[::-1]
+    if name == "rotated":
+        return pool[3:] + pool[:3]
+    if name == "first5":
+        return pool[:5]
+    if name == "specials-first":
+        return pool[-2:] + pool[:-2]
+    return pool
+
+
+def run_shared(hist):
+    """One cache directory used by several tokenizers, built one after another over different extractor lists / orders:
+    each must tokenize exactly like a cache-less tokenizer over its own list."""
+    os.makedirs(VERIF / ".work", exist_ok=True)
+    d = tempfile.mkdtemp(prefix="c14s-", dir=str(VERIF / ".work"))
+    res = []
+    try:
+        for step, name in enumerate(hist):
+            L = shared_list(name)
+            try:
+                tk = T.HyperscanTokenizer(extractors=list(L), cache_dir=d)
+                got = [[freeze(ser_token(t)) for t in tk.tokenize(x)[0]] for x in CACHE_TEXTS]
+            except BaseException as e:  # noqa: BLE001
+                res.append(("shared-cache-raise", f"history {hist[: step + 1]}: {short_exc(e).replace(d, '<cache_dir>')}"))
+                break
+            want = [[freeze(ser_token(t)) for t in T.HyperscanTokenizer(extractors=list(L), cache_dir=None).tokenize(x)[0]] for x in CACHE_TEXTS]
+            if got != want:
+                i = next(i for i, (a, b) in enumerate(zip(got, want)) if a != b)
+                res.append(("shared-cache-tokens-differ", f"after building tokenizers {hist[: step + 1]} on one cache directory, the last one tokenizes {CACHE_TEXTS[i]!r} differently from a cache-less tokenizer over the same list"))
+                break
+    finally:
+        shutil.rmtree(d, ignore_errors=True)
+    return res
+
+
 def fault_list(valid, tier):
     """Deterministic list of (description, bytes or None)."""
     N = len(valid)
@@ -424,6 +465,8 @@ def fault_list(valid, tier):
 
 def replay(case):
     setup("replay", 0)
+    if case["part"] == "shared":
+        return [{"msg": f"{lab}: {det}", "label": lab} for lab, det in run_shared(case["hist"])]
     if case["part"] == "crash":
         G["baseline"] = baseline_tokens()
         res, _, _ = run_crash(case["limit"])
@@ -457,6 +500,8 @@ def shards(tier, seed):
         out.append({"part": "cache", "r": r, "n": 32, "tier": tier})
     for r in range(16):
         out.append({"part": "crash", "r": r, "n": 16, "tier": tier})
+    for r in range(8):
+        out.append({"part": "shared", "r": r, "n": 8, "maxlen": 2 if tier == "quick" else 3})
     for r in range(32):
         out.append({"part": "bytes", "r": r, "n": 32, "stride": 160 if tier == "quick" else 40})
     return out
@@ -502,6 +547,12 @@ def run_shard(sh):
             for text in sorted(variants):
                 res, nref = check_text(text, "AC", citations=False)
                 record({"part": "matrix", "text": text, "ref": "AC", "extractor": i}, h64(text), res, nref > 0, "matrix")
+        return st
+    if sh["part"] == "shared":
+        hists = [list(h) for k in range(1, sh["maxlen"] + 1) for h in itertools.product(SHARED_LISTS, repeat=k)]
+        for hist in hists[sh["r"] :: sh["n"]]:
+            res = run_shared(hist)
+            record({"part": "shared", "hist": hist}, h64(["shared", hist]), res, len(hist) > 1, "shared")
         return st
     if sh["part"] == "punct":
         # tokens that absorb surrounding punctuation through a character class (id., supra, stop words, section marks):
